@@ -257,7 +257,8 @@ USER_OK = {"presence": True, "verification": True}
 def cd_mode(rng, k=None):
     k = rng.randrange(3) if k is None else k
     if k == 1:
-        return {"mode": "extra", "extra": rng.choice([{"extra": "data"}, {"androidPackageName": "com.example.app", "n": 7}, {"k\"ey": "v\\al\n", "nested": {"a": [1, 2]}}, {}])}
+        return {"mode": "extra", "extra": rng.choice([{"extra": "data"}, {"androidPackageName": "com.example.app", "n": 7}, {"k\"ey": "v\\al\n", "nested": {"a": [1, 2]}}, {},
+                                                       {"payment": {"total": {"currency": "USD", "value": "5.00"}, "rpId": "pay.example"}}])}
     if k == 2:
         return {"mode": "hash", "hash": bytes(rng.randrange(256) for _ in range(rng.choice([32, 32, 0, 5]))).hex()}
     return {"mode": "default"}
@@ -343,6 +344,14 @@ def directed(run):
                       ("idn-port", "https://xn--bcher-kva.example:8443", "xn--bcher-kva.example")):
         for k in range(3):
             add("origin/%s/%d" % (tag, k), store_kind="ref", user={"script": [USER_OK]}, ops=[reg_op(rng, origin=o, rp_id=r, cd=cd_mode(rng, k))])
+    # the insecure-localhost exception: the caller's origin is http://localhost[:port] and the client data must say so
+    for o in ("http://localhost", "http://localhost:8080", "https://localhost:8443"):
+        for k in range(3):
+            op = reg_op(rng, origin=o, rp_id=None if k else "localhost", cd=cd_mode(rng, k), allow_localhost=True)
+            add("localhost/%s/%d" % (o, k), store_kind="ref", user={"script": [USER_OK]}, ops=[op])
+    # extra client data whose members look like another ceremony type's (payment): a registration stays webauthn.create
+    for ex in ({"payment": {"total": {"currency": "USD", "value": "5.00"}, "rpId": "pay.example"}}, {"payment": {}}, {"payment": {"x": 1}, "topOrigin": "https://top.example"}):
+        add("extra/%s" % list(ex)[0], store_kind="ref", user={"script": [USER_OK]}, ops=[reg_op(rng, cd={"mode": "extra", "extra": ex})])
     for ps in PARAMS:
         add("params%s" % (ps,), store_kind="ref", user={"script": [USER_OK] * 2},
             ops=[reg_op(rng, params=ps), reg_op(rng, params=ps, origin="https://other.org", rp_id=None)])
